@@ -76,6 +76,14 @@ type upH struct {
 	Snaps     []stateSnap
 	counter   int
 	OpenOp    *Op
+
+	ReuseScratch bool // writes pass a scratch slice that is overwritten after the call returns
+}
+
+// flushReturn is what the caller of Flush observes through State() right after Flush returned nil.
+type flushReturn struct {
+	LastSeq  uint32
+	Buffered []string // ptKeys of the points still in the visible buffer
 }
 
 type readRec struct {
@@ -313,7 +321,18 @@ func (y *Sys) writeOp(h *upH, task int, id message.DataID, sizes []int) *Op {
 	rec := &writeRec{Up: h, ID: id, Points: pts}
 	op := &Op{Name: "Write", Args: fmt.Sprintf("u%d %s n=%d sizes=%v", h.Idx, id.Name, len(sizes), sizes), Meta: rec, Run: func(ctx context.Context) (any, error) {
 		idc := id
-		return nil, h.U.WriteDataPoints(ctx, &idc, dps...)
+		if !h.ReuseScratch {
+			return nil, h.U.WriteDataPoints(ctx, &idc, dps...)
+		}
+		// the application passes a scratch slice with spare capacity and reuses it as soon as the
+		// call has returned: what was accepted must not depend on the caller's slice any more
+		sc := make([]*message.DataPoint, len(dps), len(dps)+8)
+		copy(sc, dps)
+		err := h.U.WriteDataPoints(ctx, &idc, sc...)
+		for i := range sc {
+			sc[i] = &message.DataPoint{ElapsedTime: 999 * time.Hour, Payload: []byte("SCRATCH-SLICE-REUSED-BY-APPLICATION")}
+		}
+		return nil, err
 	}}
 	rec.Op = op
 	h.Writes = append(h.Writes, rec)
@@ -322,7 +341,18 @@ func (y *Sys) writeOp(h *upH, task int, id message.DataID, sizes []int) *Op {
 
 func (y *Sys) flushOp(h *upH) *Op {
 	op := &Op{Name: "Flush", Args: fmt.Sprintf("u%d", h.Idx), Meta: h, Run: func(ctx context.Context) (any, error) {
-		return nil, h.U.Flush(ctx)
+		if err := h.U.Flush(ctx); err != nil {
+			return nil, err
+		}
+		// what the caller can observe the moment Flush has returned nil
+		st := h.U.State()
+		fr := &flushReturn{LastSeq: st.LastIssuedSequenceNumber}
+		for _, g := range st.DataPointsBuffer {
+			for _, dp := range g.DataPoints {
+				fr.Buffered = append(fr.Buffered, ptKey(pt{ID: *g.DataID, Elapsed: dp.ElapsedTime, Payload: string(dp.Payload)}))
+			}
+		}
+		return fr, nil
 	}}
 	h.Flushes = append(h.Flushes, op)
 	return op
